@@ -10,7 +10,7 @@ UNIT = dict(
         "FifoStore::get@EvictionStore": dict(),
         "FifoStore::insert@EvictionStore": dict(rules=[
             ("sub", "R10-and-then", r"self\.order\.pop_front\(\)\.and_then\(\|old_key\| \{\s*let evicted_value = self\.data\.remove\(&old_key\)\?;\s*Some\(\(old_key, evicted_value\)\)\s*\}\)",
-             "(match self.order.pop_front() { Some(old_key) => match self.data.remove(&old_key) { Some(evicted_value) => Some((old_key, evicted_value)), None => None }, None => None })", 1),
+             "(match self.order.pop_front() { Some(old_key) => match self.data.remove(&old_key) { Some(evicted_value) => Some((old_key, evicted_value)), None => None }, None => None })", -1),
             ("inject", r"let evicted = if", "before", "let ghost vx_o0 = self.order@; let ghost vx_d0 = self.data@; proof { if vx_o0.len() > 0 { lemma_drop_first(vx_o0); } assert(!vx_o0.contains(key)); }"),
             ("inject", r"self\.data\.insert\(key\.clone\(\), value\);", "before", "let ghost vx_o1 = self.order@; proof { assert(vx_o1 =~= vx_o0 || vx_o1 =~= vx_o0.drop_first()); assert(!vx_o1.contains(key)); lemma_push(vx_o1, key); }"),
         ]),
@@ -27,7 +27,7 @@ UNIT = dict(
         "LfuStore::insert@EvictionStore": dict(rules=[
             ("sub", "R10-entry", r"\*self\.frequencies\.entry\(key\.clone\(\)\)\.or_insert\(0\) \+= 1;", "vx_bump(&mut self.frequencies, key.clone());", 1),
             ("sub", "R10-and-then", r"self\.find_lfu_key\(\)\.and_then\(\|lfu_key\| \{\s*let evicted_value = self\.data\.remove\(&lfu_key\)\?;\s*self\.frequencies\.remove\(&lfu_key\);\s*Some\(\(lfu_key, evicted_value\)\)\s*\}\)",
-             "(match self.find_lfu_key() { Some(lfu_key) => match self.data.remove(&lfu_key) { Some(evicted_value) => { self.frequencies.remove(&lfu_key); Some((lfu_key, evicted_value)) }, None => None }, None => None })", 1),
+             "(match self.find_lfu_key() { Some(lfu_key) => match self.data.remove(&lfu_key) { Some(evicted_value) => { self.frequencies.remove(&lfu_key); Some((lfu_key, evicted_value)) }, None => None }, None => None })", -1),
         ]),
         "LfuStore::remove@EvictionStore": dict(),
         "LfuStore::len@EvictionStore": dict(),
